@@ -82,8 +82,40 @@ func migCoq(m hashslot.HashSlotMigration) string {
 	return vh.App("Mig", vh.N(uint64(m.HashSlot)), vh.N(uint64(m.Source)), vh.N(uint64(m.Target)), vh.N(uint64(m.Phase)))
 }
 
+// coq renders the complete table; the assignment is run-length encoded
+// ((slot, run length) pairs, expanded by [unrle] on the Coq side).
 func (s snap) coq() string {
-	return vh.App("Tbl", vh.N(s.version), vh.N(uint64(s.count)), vh.NList(s.assign), vh.ListOf(s.migs, migCoq))
+	type run struct{ slot, n uint64 }
+	var runs []run
+	for _, a := range s.assign {
+		if len(runs) > 0 && runs[len(runs)-1].slot == a {
+			runs[len(runs)-1].n++
+		} else {
+			runs = append(runs, run{a, 1})
+		}
+	}
+	rs := vh.ListOf(runs, func(r run) string { return vh.Pair(vh.N(r.slot), vh.N(r.n)) })
+	return vh.App("TblR", vh.N(s.version), vh.N(uint64(s.count)), rs, vh.ListOf(s.migs, migCoq))
+}
+
+// rel renders the table s relative to the previous observation prev: SSame,
+// SDelta (changed hash slots only) or SFull.
+func (s snap) rel(prev snap) string {
+	if s.equal(prev) {
+		return "SSame"
+	}
+	if s.count == prev.count && len(s.assign) == len(prev.assign) {
+		var ch [][2]uint64
+		for i := range s.assign {
+			if s.assign[i] != prev.assign[i] {
+				ch = append(ch, [2]uint64{uint64(i), s.assign[i]})
+			}
+		}
+		if len(ch) <= 8+len(s.assign)/8 {
+			return vh.App("SDelta", vh.N(s.version), pairsCoq(ch), vh.ListOf(s.migs, migCoq))
+		}
+	}
+	return vh.App("SFull", s.coq())
 }
 
 func planCoq(p []hashslot.MigrationPlan) string {
@@ -168,7 +200,7 @@ func exec(t *hashslot.HashSlotTable, o op, st *stats) (string, string, *hashslot
 		dec, err := hashslot.DecodeHashSlotTable(data)
 		r := vh.App("REnc", vh.Hex(data), vh.None())
 		if err == nil {
-			r = vh.App("REnc", vh.Hex(data), vh.Some(observe(dec).coq()))
+			r = vh.App("REnc", vh.Hex(data), vh.Some(observe(dec).rel(observe(t))))
 			// continue on the decoded copy: later operations run on a table that
 			// went through the codec
 			t = dec
@@ -261,10 +293,7 @@ func run(in input) vh.Result {
 		oc, rc, nt := exec(t, o, &st)
 		t = nt
 		cur := observe(t)
-		sc := vh.None()
-		if !cur.equal(prev) {
-			sc = vh.Some(cur.coq())
-		}
+		sc := cur.rel(prev)
 		prev = cur
 		steps = append(steps, vh.App("Step", oc, rc, sc))
 	}
@@ -421,7 +450,11 @@ func (g *genState) query() {
 	case 4:
 		g.push(op{K: "getmig", HS: g.migHS()})
 	case 5:
-		g.push(op{K: "encdec"})
+		if g.codecOK() {
+			g.push(op{K: "encdec"})
+		} else {
+			g.push(op{K: "assigned"})
+		}
 	}
 }
 
@@ -464,8 +497,15 @@ func (g *genState) skew() {
 	}
 }
 
+// codecOK: hex payloads are printed into the case file; keep them moderate.
+func (g *genState) codecOK() bool { return g.count() <= 512 }
+
 func (g *genState) malformed() {
 	r := g.r
+	if !g.codecOK() {
+		g.query()
+		return
+	}
 	data := g.t.Encode()
 	switch r.IntN(9) {
 	case 0: // truncate
@@ -663,7 +703,11 @@ func gen(r *rand.Rand, tier string, i int) input {
 			case x < 5:
 				g.mutator()
 			case x < 9:
-				g.push(op{K: "encdec"})
+				if g.codecOK() {
+					g.push(op{K: "encdec"})
+				} else {
+					g.query()
+				}
 			default:
 				g.malformed()
 			}
